@@ -14,39 +14,37 @@ theorem isPrefixOf_append (pat b : List Char) : pat.isPrefixOf (pat ++ b) = true
   | nil => simp [List.isPrefixOf]
   | cons c pat ih => simp [ih]
 
-theorem hasInfix_of_prefix {pat s : List Char} (h : pat.isPrefixOf s = true) : hasInfix pat s = true := by
-  cases s with
-  | nil =>
-    cases pat with
-    | nil => rfl
-    | cons c p => simp [List.isPrefixOf] at h
-  | cons c s => simp [hasInfix, h]
-
-theorem hasInfix_append_left (pat : List Char) (a : List Char) {s : List Char} (h : hasInfix pat s = true) :
-    hasInfix pat (a ++ s) = true := by
+theorem hasGuard_append_left (cc : CharClass) (gap : Bool) (tag : List Char) (a : List Char) {s : List Char}
+    (h : hasGuard cc gap tag s = true) : hasGuard cc gap tag (a ++ s) = true := by
   induction a with
   | nil => exact h
-  | cons c a ih => simp [hasInfix, ih]
+  | cons c a ih => simp [hasGuard, ih]
 
-theorem hasInfix_mid (pat a b : List Char) : hasInfix pat (a ++ (pat ++ b)) = true :=
-  hasInfix_append_left pat a (hasInfix_of_prefix (isPrefixOf_append pat b))
+theorem hasGuard_of_guardAt (cc : CharClass) (gap : Bool) (tag : List Char) {s : List Char}
+    (h : guardAt cc gap tag s = true) : hasGuard cc gap tag s = true := by
+  cases s with
+  | nil => simpa [hasGuard] using h
+  | cons c s => simp [hasGuard, h]
 
-/-- a tag called `f` makes the guard `'f {' in custom` true -/
-theorem hasInfix_renderLaid (f : List Char) : ∀ (ts : List LTag) (tail : List Char),
-    (∃ t ∈ ts, t.name = f) → hasInfix (guardString f) (renderLaid ts tail) = true := by
+/-- a tag called `f` makes the guard `'f {' in custom` / `re.search(r'f\s*{', custom)` true -/
+theorem hasGuard_renderLaid {cc : CharClass} (hl : Lawful cc) (gap : Bool) (f : List Char) :
+    ∀ (ts : List LTag) (tail : List Char),
+    (∃ t ∈ ts, t.name = f) → hasGuard cc gap f (renderLaid ts tail) = true := by
   intro ts
   induction ts with
   | nil => intro tail ⟨t, ht, _⟩; simp at ht
   | cons t ts ih =>
     intro tail ⟨x, hx, hxn⟩
     rcases List.mem_cons.mp hx with rfl | hx'
-    · have e : renderLaid (x :: ts) tail = x.sep ++ (guardString x.name ++ (x.body ++ '}' :: renderLaid ts tail)) := by
-        simp [renderLaid, LTag.render, guardString]
+    · have e : renderLaid (x :: ts) tail = x.sep ++ (x.name ++ ' ' :: '{' :: (x.body ++ '}' :: renderLaid ts tail)) := by
+        simp [renderLaid, LTag.render]
       rw [e, ← hxn]
-      exact hasInfix_mid _ _ _
+      apply hasGuard_append_left
+      apply hasGuard_of_guardAt
+      simp [guardAt, isPrefixOf_append, gapBrace_space_brace cc gap hl.space_is_space hl.lbrace_not_space]
     · have := ih tail ⟨x, hx', hxn⟩
       simp only [renderLaid]
-      exact hasInfix_append_left _ _ this
+      exact hasGuard_append_left _ _ _ _ this
 
 /-! ### opening braces -/
 
@@ -105,7 +103,7 @@ theorem parseElementList_laid {cc : CharClass} (hl : Lawful cc) (ts : List LTag)
     parseElementList cc (renderLaid ts tail) fields =
       .ok ((ts.filter (fun t => fields.contains t.name)).map listDictOf) := by
   unfold parseElementList findAll
-  rw [scan_renderLaid hl _ ts tail hts htail (fun t ht _ => hbr t ht)]
+  rw [scan_renderLaid hl _ _ ts tail hts htail (fun t ht _ => hbr t ht)]
   exact parseElementMatches_laid hl _ (fun t ht => hts t (List.mem_filter.mp ht).1)
 
 theorem parseElement_laid {cc : CharClass} (hl : Lawful cc) (ts : List LTag) (tail : List Char)
@@ -116,7 +114,7 @@ theorem parseElement_laid {cc : CharClass} (hl : Lawful cc) (ts : List LTag) (ta
       | some t => .ok (dictOfAttrs t.attrs [])
       | none => .error .ValueError := by
   unfold parseElement findAll
-  rw [scan_renderLaid hl _ ts tail hts htail (fun t ht _ => hbr t ht)]
+  rw [scan_renderLaid hl _ _ ts tail hts htail (fun t ht _ => hbr t ht)]
   induction ts with
   | nil => rfl
   | cons t ts ih =>
